@@ -162,9 +162,24 @@ def scheduler(kind: str | None = "synchronous", workers: int | None = None):
 
 
 def run(cfg: Cfg, debug: bool = False, sync: bool = True, with_inherited_coords: bool | None = None,
-        sched: str | None = None, workers: int | None = None, compute: bool = True, override_dct=None):
-    """Run and (for lazily evaluated results) load everything, so failures surface here."""
+        sched: str | None = None, workers: int | None = None, compute: bool = True, override_dct=None, entry: str = "run_mode"):
+    """Run and (for lazily evaluated results) load everything, so failures surface here.
+
+    entry="legacy": the older public entry points pyxel.exposure_mode / pyxel.observation_mode (deprecated, still exported).
+    """
     import pyxel
+
+    if entry == "legacy":
+        import warnings
+
+        from pyxel.exposure import Exposure
+
+        with scheduler(sched if sched is not None else ("synchronous" if sync else None), workers), warnings.catch_warnings():
+            warnings.simplefilter("ignore", FutureWarning)
+            warnings.simplefilter("ignore", DeprecationWarning)
+            if isinstance(cfg.mode, Exposure):
+                return pyxel.exposure_mode(exposure=cfg.mode, detector=cfg.detector, pipeline=cfg.pipeline)
+            return pyxel.observation_mode(observation=cfg.mode, detector=cfg.detector, pipeline=cfg.pipeline)
 
     if with_inherited_coords is None:
         with_inherited_coords = bool(getattr(cfg.mode, "with_dask", False))
